@@ -28,10 +28,13 @@ VARIABLES decl, useAt, out, phase
 vars == <<decl, useAt, out, phase>>
 
 Scopes == {"M1", "P1", "I1", "P2", "M2", "E1"}
-Parent(s) == CASE s = "I1" -> "P1" [] s = "P1" -> "M1" [] s = "P2" -> "M1" [] OTHER -> "none"
+(* B1: a BLOCK construct in the executable part of P1.  It is a scoping unit that can declare a type or an       *)
+(* abstract interface, nothing outside refers into it and nothing is its child: what it declares is visible      *)
+(* nowhere else (F2018 11.1.4), so it must not change any resolution.                                            *)
+Parent(s) == CASE s = "I1" -> "P1" [] s = "P1" -> "M1" [] s = "P2" -> "M1" [] s = "B1" -> "P1" [] OTHER -> "none"
 (* where a name of the class can be declared *)
 DeclSites == IF Class = "proc" THEN {"M1", "P1", "P2", "M2"}     \* module / internal procedures
-             ELSE Scopes
+             ELSE Scopes \cup {"B1"}
 (* the scoping unit named s as a declaration site declares the name INSIDE s: *)
 (* for Class = "proc", "M1" means a module procedure of M1 named f, "P1" an    *)
 (* internal procedure of P1 named f, and so on                                *)
@@ -122,5 +125,6 @@ SiblingInvisible == (phase = "chosen" /\ Legal) =>
 UnresolvedStaysText == (phase = "chosen" /\ Legal) =>
   \A s \in RefSites : (\A i \in 1..Len(Chain(s)) : Chain(s)[i] \notin decl /\ ~(useAt = Chain(s)[i] /\ "M2" \in decl))
                         => Ref[s] = "unresolved"
+BlockLocalInvisible == (phase = "chosen" /\ Legal) => \A s \in RefSites : Ref[s] # "B1"
 NeverShadow == ~(phase = "chosen" /\ Legal /\ "I1" \in decl /\ "M1" \in decl)     \* vacuity guard
 =============================================================================
